@@ -18,6 +18,7 @@ func genLease(c *Ctx) error {
 		nHist = 140
 	}
 	directedQueuedImport(c)
+	directedStalledHandoff(c)
 	if c.Flag("queued-import") {
 		return nil
 	}
@@ -409,5 +410,58 @@ func directedQueuedImport(c *Ctx) {
 			c.Count("directed.queued-import." + variant)
 			c.Nontrivial("directed-queued-import-" + variant + mode + "-" + held)
 		}
+	}
+}
+
+// directedStalledHandoff: a handoff is requested for a replica that is connected but whose stream
+// handler on the primary cannot take the lease id: it has just connected and waits for the locks
+// of an application transaction before it can send the snapshot.  The primary must carry on as
+// primary (the hand-over times out): it must not step down while the lease is neither destroyed
+// nor in the hands of the target.
+func directedStalledHandoff(c *Ctx) {
+	r := c.Rng
+	for _, mode := range []string{"", " consul"} {
+		cs := c.Begin()
+		do := func(op string) string { c.Count("op." + strings.Fields(op)[0]); return cs.Do(op) }
+		obs := func(what string) {
+			if out := do("quiet"); out != "ok" {
+				c.Fail("stalled-handoff scenario (" + mode + ", " + what + "): a node acts as primary without holding the lease (or the reverse): " + out)
+			}
+			do("roles")
+			do("events")
+			do("pctx 0")
+		}
+		do("cluster 2" + mode)
+		do("lease-ttl long")
+		do("allow 0")
+		do("up 0")
+		obs("node 0 primary")
+		do("pctx-take 0")
+		v := newVPrimary(r, 512)
+		v.commit(r.Range(2, 4), map[int]bool{})
+		if out := do("n 0 import " + v.tok0()); out != "ok" {
+			c.Fail("stalled-handoff scenario: import refused: " + out)
+		}
+		// an application connection on the primary is in the middle of a commit (EXCLUSIVE)
+		do("n 0 rlock 5 PENDING")
+		do("n 0 rlock 5 SHARED")
+		do("n 0 unlock 5 PENDING")
+		do("n 0 lock 5 RESERVED")
+		do("n 0 lock 5 PENDING")
+		do("n 0 lock 5 SHARED")
+		// a new replica connects: its snapshot has to wait for that transaction
+		do("up 1")
+		do("wait-ms 150")
+		do("handoff-stalled 0 1")
+		do("wait-ms 5400") // the hand-over's processing time-out (5 s) runs out
+		obs("hand-over timed out")
+		do("n 0 unlock 5 PENDING,RESERVED")
+		do("n 0 unlock 5 SHARED")
+		do("sync")
+		obs("replica caught up")
+		do("n 1 state")
+		cs.End()
+		c.Count("directed.stalled-handoff")
+		c.Nontrivial("directed-stalled-handoff" + mode)
 	}
 }
